@@ -868,6 +868,12 @@ get_comment_before(int line, CPPFile file) {
     if (comment->_file == file) {
       wrong_file_count = 0;
       if (comment->_last_line == line || comment->_last_line == line - 1) {
+        // A comment documents the first declaration that follows it, not also
+        // the one on the next line.
+        if (comment->_attached_line != 0 && comment->_attached_line != line) {
+          return nullptr;
+        }
+        comment->_attached_line = line;
         return comment;
       }
 
